@@ -404,9 +404,11 @@ fn check_reads<I: Idx>(which: &str, idx: &I, model: &Model, lookups: &[u32], rou
 
 fn check_combined<I: Idx>(total: &I, delta: &I, mt: &Model, md: &Model, lookups: &[u32], round: usize) -> Result<(), Violation> {
    let kind = I::KIND;
-   let mut union: Model = mt.clone();
-   for (k, v) in md {
-      union.entry(*k).or_default().extend(v.iter().cloned());
+   // each half normalised on its own first (a set index holds an element once per half, however
+   // often it was inserted there), then chained
+   let mut union: Model = norm(kind, mt);
+   for (k, v) in norm(kind, md) {
+      union.entry(k).or_default().extend(v);
    }
    let want = norm(if kind == Kind::Set { Kind::Multi } else { kind }, &union);
    let ctx = format!("round {} combined(total, delta)", round);
@@ -663,6 +665,10 @@ pub fn gen_scenario(rng: &mut vcorpus::val::Rng, thorough: bool) -> IndexScenari
    let mut next_val = 100u32;
    let mut fresh_key = 1000u32;
    let overlap = rng.chance(250);
+   // multimap kinds: the same (key, value) pair inserted again, in the same and in later rounds (as the
+   // row id of a parallel lattice row is, every time the row improves), so that the two sides of a
+   // merge hold equal values under one key
+   let repeat = !kind_full && rng.chance(300);
    let n_rounds = rng.range(2, if thorough { 5 } else { 4 });
    let mut rounds = vec![];
    for round_no in 0..n_rounds as u32 {
@@ -683,7 +689,8 @@ pub fn gen_scenario(rng: &mut vcorpus::val::Rng, thorough: bool) -> IndexScenari
          } else {
             rng.below(n_keys as u64) as u32
          };
-         pre.push((rng.below(3) as u8, k, next_val));
+         let v = if repeat && rng.chance(600) { 1 + rng.below(3) as u32 } else { next_val };
+         pre.push((rng.below(3) as u8, k, v));
       }
       let n_writers = rng.range(1, 4) as usize;
       let mut writers = vec![];
@@ -701,7 +708,8 @@ pub fn gen_scenario(rng: &mut vcorpus::val::Rng, thorough: bool) -> IndexScenari
                   ops.push(WOp { kind: 0, key: fresh_key, val: next_val });
                }
             } else {
-               ops.push(WOp { kind: 0, key: rng.below(n_keys as u64) as u32, val: next_val });
+               let v = if repeat && rng.chance(600) { 1 + rng.below(3) as u32 } else { next_val };
+               ops.push(WOp { kind: 0, key: rng.below(n_keys as u64) as u32, val: v });
             }
          }
          writers.push(ops);
